@@ -102,6 +102,9 @@ func Path(n int) *DenseGraph {
 
 //Cycle returns a copy of the cycle on n vertices.
 func Cycle(n int) *DenseGraph {
+	if n < 3 {
+		panic("n must be at least 3.")
+	}
 	edges := make([]byte, (n*(n-1))/2)
 	for i := 0; i < n-1; i++ {
 		edges[((i+1)*i)/2+i] = 1
